@@ -309,6 +309,7 @@ func init() {
 			{"mpt-reader", "Trie methods read node records only through the mode-aware getFromStore, which reports inactive records as (nil, not found); the reference-count suffix is written and read in one format", ruleMPTReader},
 			{"store-value-immutable", "Trie methods never modify in place a slice obtained from the store (counter updates work on a copy), so a trie computed over a private layer and dropped leaves stored records untouched", ruleStoreValueImmutable},
 			{"rc-loaded", "a node a Trie method loads from the store while restructuring is either handed on / embedded / returned as a whole or released with removeRef on every path that returns normally (a replaced node is never left counted)", ruleRCLoaded},
+			{"trie-copy-shares", "a value copy of a Trie shares the node objects and the pending-count map with the original: it is not mutated through (PutBatch, Put, Delete, Flush, Collapse) - a block computed on such a copy and dropped would leave the installed trie restructured and re-counted", ruleTrieCopyShares},
 			{"rc-writers", "node records reach the store only through the tabled count-folding writers; the GC pass deletes a record only if it is inactive and not newer than the GC height", ruleRCWriters},
 			{"working-trie", "the state-root module's working trie (the one flushed to the database) is opened on every (re)initialisation, jump and reset with the module's unmasked mode over the module's own store, and a flush stamps nodes with the index of the block whose root record is written", ruleWorkingTrie},
 		},
